@@ -316,6 +316,15 @@ def dynamic_programs(tier):
     # run-time rejection
     add("r_require", "runtime-require", "behavior B():\n    x = DiscreteRange(0, 2)\n    require x != 1\n    take Move(x)\n    take Move(DiscreteRange(0, 1))\n"
         "ego = new Object with name 'e', with behavior B\n", "exact", 3)
+    # chain programs: a value is drawn at EVERY step, so a replay continued past the end of its
+    # recording draws fresh values after the recorded ones (name prefix c_: roots of replay chains)
+    add("c_loop", "chain-loop", "behavior B():\n    while True:\n        take Move(DiscreteRange(1, 2))\nego = new Object with name 'e', with behavior B\nrecord ego.position.x as px\n", "exact", 2)
+    add("c_two", "chain-two-agents", "behavior B(k):\n    while True:\n        take Move(Uniform(k, k + 1))\n"
+        "ego = new Object with name 'e', with behavior B(1)\nnew Object at (0, 10, 0), with name 'f', with behavior B(253)\n", "exact", 2)
+    if tier != "quick":
+        add("c_float", "chain-float", "behavior B():\n    while True:\n        take Move(Range(0, 1))\nego = new Object with name 'e', with behavior B\n", "lattice", 2)
+        add("c_choose", "chain-choose", "behavior S1():\n    take Move(1)\nbehavior S2():\n    take Move(2)\nbehavior B():\n    while True:\n        do choose S1(), S2()\n"
+            "ego = new Object with name 'e', with behavior B\nterminate when ego.position.x > 6.5\n", "exact", 3)
     # divergence programs: deterministic motion, k agents x steps
     beh = "behavior B(k):\n    while True:\n        take Move(k)\n"
     two = beh + "ego = new Object with name 'e', with behavior B(1)\nnew Object at (0, 10, 0), with name 'f', with behavior B(Uniform(2, 3))\n"
